@@ -230,7 +230,13 @@ def run_case(case) -> Outcome:
             except Exception as e:  # noqa: BLE001
                 out.check(False, "valid-call-raises", f"{type(e).__name__}: {e}")
                 return out
-            if d[3] % 3 == 0 or not tasks[t_idx]:
+            if d[4] % 2 == 0:
+                # defaulted lists below: freeze a leaf that the default discovery will find (one the losses depend on)
+                reach = sorted(P.leaf_deps(prog, prog["losses"]))
+                li = reach[d[0] % len(reach)]
+                g.leaves[li].requires_grad_(False)
+                late = True
+            elif d[3] % 3 == 0 or not tasks[t_idx]:
                 pos = d[0] % len(shared)
                 shared[pos].requires_grad_(False)
                 late = sum(len(t) for t in tasks) > 0 or pos > 0
@@ -240,8 +246,13 @@ def run_case(case) -> Outcome:
                 late = preceding(t_idx, pos)
         cont = case.get("container", "list")
         out.cls("container:" + cont)
-        call = lambda: mtl_backward(losses, feats, agg, tasks_params=[_wrap(t, cont) for t in tasks],  # noqa: E731
-                                    shared_params=_wrap(shared, cont), parallel_chunk_size=chunk, retain_graph=True)
+        if fault == "frozen-param" and d[4] % 2 == 0:
+            # the same rejected call with the parameter lists left to their defaults (the frozen leaf is still in the graph)
+            out.cls("defaulted-lists")
+            call = lambda: mtl_backward(losses, feats, agg, parallel_chunk_size=chunk, retain_graph=True)  # noqa: E731
+        else:
+            call = lambda: mtl_backward(losses, feats, agg, tasks_params=[_wrap(t, cont) for t in tasks],  # noqa: E731
+                                        shared_params=_wrap(shared, cont), parallel_chunk_size=chunk, retain_graph=True)
 
     tensors_all = {str(ref): t for ref, t in g.values.items()}
     tensors_all["nograd"] = nograd
